@@ -81,6 +81,18 @@ class Interp:
                     mirq._operand_uses(a, used)
         cand -= used
         cand.discard(0)
+        # a drop flag guards a drop: some switch on it leads straight to a Drop terminator.  A bool temporary that is
+        # assigned constants in two arms and tested once (`matches!(..)`, `a && b` lowering) is program data.
+        guards_drop = set()
+        for b in mir["blocks"]:
+            t = b["term"]
+            if t["k"] == "SwitchInt":
+                l = mirq.op_local(t["discr"])
+                if l in cand:
+                    for tb in [bb for _v, bb in t["targets"]] + [t["otherwise"]]:
+                        if mir["blocks"][tb]["term"]["k"] == "Drop":
+                            guards_drop.add(l)
+        cand &= guards_drop
         return set("_%d" % i for i in cand)
 
     # ----------------------------------------------------------------- places
@@ -226,6 +238,8 @@ class Interp:
                 return ("v", rv["variant"], ops)
             if rv["agg"] == "Closure":
                 return ("closure", rv["closure"], ops)
+            if rv["agg"] == "Array":
+                return ("t", ops)
             return TOP
         if k == "Discriminant":
             v = self.read(rv["place"], env)
